@@ -15,7 +15,7 @@ PROP = dict(
           "(spawn, entry, context-flag set / wait / resume, finished-flag store, exit, join): ALL interleavings, exhaustive; (sync) rapidcheck "
           "producer/consumer scripts: 1-4 producers, 1-4 consumers, 1-50 items each, over Semaphore (post / post(n) / wait) and over Condition with the "
           "documented protocol (lock; while(!pred) wait(); unlock; signal under the lock): every waiter completes (20 s bound, expected microseconds), "
-          "final semaphore value / item count 0. Non-trivial: empty or degenerate range or more threads than indices; every sampled pfor case; thread "
+          "final semaphore value / item count 0. Added in seeding rounds 4-6: start() again on an object whose first run ended (seen through finished()) but was never joined; (many) a fire-and-forget series (start, finished(), destroy without join) longer than vm.max_map_count/2 threads; Semaphore::wait(timeout) with fractional and integral timeouts started at chosen phases of the wall-clock second, trywait() polling and repeated wait(0.35) consumers, Condition::wait(0.45) in the documented loop, Condition bound by use() and re-bound to the same mutex while waiters exist; (semsig) a signal handler without SA_RESTART interrupts the consumer's sleep so that errno is EINTR when it waits: tokens taken never exceed returned waits, no wait blocks while a token is there; (condlate) a timed wait whose deadline passes while the signaller holds the mutex, followed by a lone ordinary waiter; parallel_for through its default thread count; static Thread::start(f, &t). Non-trivial: empty or degenerate range or more threads than indices; every sampled pfor case; thread "
           "scenario with an empty or very short body, a lambda/functor thread or parallel_invoke; every scheduler interleaving; every sync script. "
           "Distinct by case hash / by construction for enumerated parts."),
     assumptions=["jitter and OS scheduling sample interleavings outside the deterministic-scheduler scenarios; the 20 s bound can prove a hang, not its absence",
